@@ -407,6 +407,7 @@ def solve(assumptions, goal, timeout_ms, want_model=True, quick=False, seed_shif
     s = None
     has_quant = any(_has_quantifier(a) for a in asm) or _has_quantifier(goal)
     candidate = None
+    tried_projection = False
     plan = [(0, 2000)] if quick else [(0, timeout_ms // 8)] + [(sd, timeout_ms // 16) for sd in (1, 2, 3, 4, 5, 6)] + [(7, timeout_ms // 4), (8, timeout_ms // 4), (9, timeout_ms // 2)]
     if seed_shift:
         plan = [(sd + seed_shift + 10, tmo) for (sd, tmo) in plan]
@@ -432,6 +433,12 @@ def solve(assumptions, goal, timeout_ms, want_model=True, quick=False, seed_shif
             wd.cancel()
         if r == z3.unsat:
             return 'proved', ver, time.time() - t0, None, ('' if seed == 0 else 'z3 retry with seed %d' % seed)
+        if not quick and not tried_projection and r != z3.sat and (seed, tmo) == plan[min(2, len(plan) - 1)]:
+            # three z3 attempts have failed: let cvc5 try the heap-free projection before z3 goes on
+            tried_projection = True
+            res, nkeep = cvc5_projection(asm, goal, max(timeout_ms, 20000))
+            if res == 'unsat':
+                return 'proved', 'cvc5-1.0.3', time.time() - t0, None, 'cvc5 on the projection without two-index heap arrays (%d of %d assumptions)' % (nkeep, len(asm))
         if r == z3.sat:
             m = s.model()
             bad = None
@@ -467,6 +474,44 @@ def solve(assumptions, goal, timeout_ms, want_model=True, quick=False, seed_shif
     if res == 'sat':
         return 'unknown', 'z3+cvc5', dt + dt2, candidate, 'z3 unknown (%s); cvc5 sat (no model extracted)' % reason
     return 'unknown', 'z3+cvc5', dt + dt2, candidate, 'z3: %s; cvc5: %s' % (reason, res)
+
+
+def _mentions_multi_array(t):
+    """does the term mention an array with more than one index (z3 extension; cvc5 1.0 cannot read those)?"""
+    seen = set()
+    stack = [t]
+    while stack:
+        x = stack.pop()
+        if x.get_id() in seen:
+            continue
+        seen.add(x.get_id())
+        so = x.sort()
+        if so.kind() == z3.Z3_ARRAY_SORT and z3.Z3_get_array_arity(so.ctx_ref(), so.ast) > 1:
+            return True
+        if z3.is_app(x):
+            stack.extend(x.children())
+        elif z3.is_quantifier(x):
+            stack.append(x.body())
+    return False
+
+
+def cvc5_projection(asm, goal, timeout_ms):
+    """second solver on a weaker problem: the assumptions that do not mention the two-index heap arrays (dropping
+    assumptions is sound for proving).  Decides the pure sequence / integer obligations on which z3's sequence solver
+    is erratic (proved in a second with one random seed, lost with the next)."""
+    try:
+        if _mentions_multi_array(goal):
+            return None, 0
+        keep = [a for a in asm if not _mentions_multi_array(a)]
+        if not keep:
+            return None, 0
+        s = z3.Solver()
+        for a in keep:
+            s.add(a)
+        s.add(z3.Not(goal))
+        return run_cvc5(s, timeout_ms), len(keep)
+    except Exception:
+        return None, 0
 
 
 def _has_quantifier(t):
